@@ -7,7 +7,7 @@
    observed at iteration `it` for the states held by the variable signals): nothing is assumed about it except
    that sensitivities have the size of their states.  Loops are fuelled; out-of-fuel is an explicit result. *)
 From Coq Require Import ZArith List Bool Reals.
-From Pymoto Require Import Model.Concat Model.OC Proofs.ConcatP Proofs.OCP.
+From Pymoto Require Import Model.MMAvars Proofs.MMAvarsP Proofs.ConcatTypedP Model.Concat Model.OC Proofs.ConcatP Proofs.OCP.
 Import ListNotations.
 Open Scope R_scope.
 
@@ -167,6 +167,21 @@ Theorem C17_write_back_roundtrip : forall (K : Type) (vars : list (pstate K)) va
 Proof. exact @write_back_roundtrip. Qed.
 Print Assumptions C17_write_back_roundtrip.
 
+(* ---------------------------------------------------------------- the design vector with dtypes
+   pymoto.utils._concatenate_to_array is regenerated from the source on every run against the TYPED model of
+   Model/MMAvars.v (bridge/C17/UtilsBridge.v).  That model and the untyped one above agree, and its result is float64
+   whatever the dtypes (int32 / int64 / float32 / float64; Python int = int64) of the variable signals' states. *)
+Theorem C17_typed_concat_is_concat : forall (K : Type) (vs : list (MMAvars.tstate K)),
+  option_map (fun r => (snd (fst r), map Z.of_nat (snd r))) (MMAvars.concat_to_array_t idc vs)
+  = concatenate_to_array (map to_pstate vs).
+Proof. exact @typed_concat_is_Concat. Qed.
+Print Assumptions C17_typed_concat_is_concat.
+
+Theorem C17_design_vector_float64 : forall (K : Type) (conv : MMAvars.dtype -> MMAvars.dtype -> K -> K) (vs : list (MMAvars.tstate K)) r,
+  MMAvars.concat_to_array_t conv vs = Some r -> fst (fst r) = MMAvars.F64.
+Proof. exact @MMAvarsP.concat_t_dtype. Qed.
+Print Assumptions C17_design_vector_float64.
+
 (* ---------------------------------------------------------------- non-vacuity *)
 (* the default parameters l1init = 0, l2init = 100000, l1l2tol = 1e-4 meet the termination hypothesis with k = 30 *)
 Example C17_nonvacuous_default_step_count : (100000 - 0) / 2 ^ 30 <= 1 / 10000.
@@ -179,3 +194,9 @@ Example C17_nonvacuous_run :
             stop t = StopTolX /\ length (designs t) = 3%nat /\ length (final t) = 3%nat /\
             warns t = [false; false; false].
 Proof. exact demo_run. Qed.
+
+(* integer-typed states (an int64 array and a Python int): the design vector is float64 *)
+Example C17_nonvacuous_integer_states :
+  MMAvars.concat_to_array_t idc [MMAvars.TVal MMAvars.I64 (MMAvars.Arr [1; 2]%Z); MMAvars.TVal MMAvars.I64 (MMAvars.Scal 1%Z)]
+  = Some ((MMAvars.F64, [1; 2; 1]%Z), [0; 2; 3]%nat).
+Proof. vm_compute. reflexivity. Qed.
